@@ -111,7 +111,9 @@ def run(chk, failed):
                 "empty, unicode or start with digits -- 60% from families in which cluster+' '+group coincides for different pairs; 2-4 "
                 "storage contents of 0-4 partitions (OK/STOP/WARN/STALL); storage updates interleaved with sequential requests (both "
                 "views), sleeps across the 1 s lifetime, bursts of 8-24 requests from 8 requesters with an update in the middle, and "
-                "expire-cache = 0 scenarios; every storage answer carries its fetch time, so a reply shows which fetch it came from. "
+                "expire-cache = 0 scenarios; stressed inputs: the storage side takes nothing off its channel for 1.2-1.5 s when the "
+                "next request must fetch (~30%), answers a fetch 1.2-1.4 s late (expire-cache = 0 scenarios), requesters with an "
+                "unbuffered reply channel (~35%) or coming back for the answer 1.3 s late (~25%); every storage answer carries its fetch time, so a reply shows which fetch it came from. "
                 "Compared: (a) sequential scenarios -- every reply (names, status, totals, partitions of the requested view) and every "
                 "storage fetch against Cache.step replayed on the observed clock; (b) all scenarios -- the extracted oracle "
                 "Cache.check_obs on the observations (one reply, right names, evaluation of an own-pair fetch within lifetime + 0.1 s, "
@@ -239,7 +241,8 @@ def run(chk, failed):
                 chk.violation("obligation", {"kind": "theorem", "broken": [n for n, _ in failed],
                                              "detail": [d for _, d in failed]}, found_input=False)
     chk.assumptions += [
-        "storage answers every fetch (the probe's responder always does; TimeoutSendStorageRequest is not on this path) and the evaluation "
+        "storage eventually takes and answers every fetch (the probe's responder stalls for up to 1.5 s before taking one, or answers up "
+        "to 1.4 s late, but never drops one; a storage side that never answers leaves the request unanswered in code and model alike) and the evaluation "
         "of a storage reply returns (Eval.eval_group without Crash: storage never reports a nil commit after a non-nil one, C03/C04)",
         "goswarm Simple (v1.10.0) is modelled from its source at the granularity of its atomic Load/Store operations; it reads the real "
         "clock, so scenarios really sleep and the model is replayed on the observed clock (request, fetch and reply stamps); a cache "
